@@ -218,6 +218,25 @@ fn main() {
             if bad > 3 { break; }
         }
     }
+    // credentials are used exactly as configured (the OpaqueString profile keeps ASCII spaces: " pw " and "pw" are different passwords)
+    for (user, pass) in [(" padded user ", " padded password "), ("user ", " password"), ("\u{e9}l\u{e8}ve", "se\u{301}same")] {
+        n += 1;
+        let mut c = match StunClienteBuilder::new(TransportReliability::Unreliable(RttConfig::default()))
+            .with_mechanism(user, pass, CredentialMechanism::ShortTerm(None)).build() { Ok(c) => c, Err(_) => continue };
+        if c.send_request(BINDING, StunAttributes::default(), vec![0; 1024], Instant::now()).is_err() { continue; }
+        let (pk, _) = packets(&mut c);
+        if pk.len() != 1 { continue; }
+        let key = match HMACKey::new_short_term(pass) { Ok(k) => k, Err(_) => continue };
+        let ctx = DecoderContextBuilder::default().with_key(key).with_validation().build();
+        match MessageDecoderBuilder::default().with_context(ctx).build().decode(&pk[0]) {
+            Ok((msg, _)) => {
+                let want = UserName::new(user).map(|u| u.as_str().to_string()).unwrap_or_default();
+                let got: Vec<String> = msg.attributes().iter().filter(|a| a.is_user_name()).map(|a| a.expect_user_name().as_str().to_string()).collect();
+                if got != vec![want.clone()] { println!("WITNESS: configured user name {:?}: USERNAME on the wire {:?}, expected {:?}", user, got, want); bad += 1; }
+            }
+            Err(e) => { println!("WITNESS: short-term client configured with password {:?}: the request does not verify under that password: {:?}", pass, e); bad += 1; }
+        }
+    }
     if bad == 0 && lt_checked == 0 { println!("WITNESS: the long-term client never produced an authenticated request after 401 + 438"); std::process::exit(1); }
     if bad == 0 { println!("ok: {} client x attribute-list x class cases ({} authenticated long-term requests): emitted packets well formed, authenticated and retransmitted identically", n, lt_checked); } else { std::process::exit(1); }
 }
